@@ -70,6 +70,38 @@ theorem getitem_basic_blocks (chunks : List (List Int)) (idx idx' : List Ix)
       ChunksAgree chunks (idx'.filter (fun i => !i.isNone)) :=
   Dask.Lemmas.Indexing.getitem_basic_blocks chunks idx idx' hc hb h
 
+/-- On a sliced axis the `k`-th pair of `_layer` (`out_names` factor `o[k]`, `k`-th sorted input
+block) sits at position `o[k]` of the plan in output-block order — the order `axisPieces` (and
+`getitem_basic_blocks`) uses; i.e. output block `j` reads the `j`-th piece. -/
+theorem layerAxis_ordered (lengths : List Int) (s : PySlice) (o : List Nat)
+    (h : outRange1 lengths (.slc s) = some o) :
+    o.length = (sortByKey (slice1d (isum lengths) lengths s)).length ∧
+    ∀ k, k < (sortByKey (slice1d (isum lengths) lengths s)).length →
+      (orderedPlan s.stp (slice1d (isum lengths) lengths s))[o.getD k 0]? =
+        (sortByKey (slice1d (isum lengths) lengths s))[k]? :=
+  Dask.Lemmas.Indexing.layerAxis_ordered lengths s o h
+
+/-- **`SliceSlicesIntegers._layer` is the product of the per-axis wirings**: the triples
+`zip(out_names, in_names, all_slices)` are exactly, and in the same order, the cells of the grid
+`cart (axisCells per axis)` (`axisCells` = the `out_names` factor zipped with the sorted
+`_slice_1d` plan; an integer axis has one cell and no output index).  With `layerAxis_ordered`:
+output block `(j₁,…,jₙ)` reads, on axis `a`, the `jₐ`-th piece of `axisPieces`. -/
+theorem ssiLayer_eq_cells (chunks : List (List Int)) (index : List Ix)
+    (hix : ∀ i ∈ index, (∃ k, i = .int k) ∨ (∃ s, i = .slc s)) :
+    ssiLayer chunks index = (cart (List.zipWith axisCells chunks index)).map splitCell :=
+  Dask.Lemmas.Indexing.ssiLayer_eq_cells chunks index hix
+
+/-- `x[idx].chunks` for a basic index (the `normalize_index` → `slice_with_newaxes` →
+`SliceSlicesIntegers` → `ExpandDims` pipeline): item by item `(1,)` for `None`, no axis for an
+integer, `new_blockdim` for a slice; NumPy accepts the index and the advertised shape
+(`sum` of the chunks per axis) is NumPy's output shape. -/
+theorem getitemChunks_spec (chunks : List (List Int)) (idx : List Ix) (r : List (List Int))
+    (hc : ∀ l ∈ chunks, ∀ c ∈ l, 0 ≤ c) (hb : idx.countP Ix.isLst = 0)
+    (h : getitemChunks chunks idx = .ok r) :
+    ∃ idx' pos out, normalizeIndex idx (chunks.map isum) = .ok idx' ∧ r = outChunks chunks idx' ∧
+      npIndex idx (chunks.map isum) = .ok (pos, out) ∧ out = r.map (fun c => (isum c).toNat) :=
+  Dask.Lemmas.Indexing.getitemChunks_spec chunks idx r hc hb h
+
 /-- **`.blocks[idx]`**: whenever accepted, the selected input blocks per axis (`maps`) are exactly
 NumPy's indexing of `arange(numblocks)` with the same index (integers keep their axis), they
 exist, and the chunks of the result are exactly the sizes of the selected blocks in that order
@@ -125,6 +157,12 @@ example : normalizeIndex [.slc ⟨none, none, some (-1)⟩, .int 1] ([[2, 1], [3
 example : List.zipWith axisPieces [[2, 1], [3, 1]] [.slc ⟨none, none, some (-1)⟩, .int 1] = [[[2], [1, 0]], [[1]]] := by decide
 example : gridReads [[2, 1], [3, 1]] [.slc ⟨none, none, some (-1)⟩, .int 1] = [[2, 1], [1, 1], [0, 1]] := by decide
 example : ssiChunks [[2, 1], [3, 1]] [.slc ⟨none, none, some (-1)⟩, .int 1] = [[1, 2]] := by decide
+example : getitemChunks [[2, 1], [3, 1]] [.none_, .int 1, .none_, .slc ⟨none, none, some (-2)⟩] = .ok [[1], [1], [1, 1]] := by rfl
+example : npIndex [.none_, .int 1, .none_, .slc ⟨none, none, some (-2)⟩] [3, 4] = .ok ([[1], [3, 1]], [1, 1, 2]) := by rfl
+example : outRange1 [2, 1] (.slc ⟨none, none, some (-1)⟩) = some [1, 0] := by decide
+example : ssiLayer [[2, 1], [3, 1]] [.slc ⟨none, none, some (-1)⟩, .int 3] =
+    [([1], [0, 1], [.slc ⟨some (-1), some (-3), some (-1)⟩, .int 0]),
+     ([0], [1, 1], [.slc ⟨some (-1), some (-2), some (-1)⟩, .int 0])] := by decide
 -- a product where block-major order differs from C order (why `axisLift` is a permutation)
 example : (cart [[[0], [1]], [[5], [6]]]).flatMap cart = [[0, 5], [0, 6], [1, 5], [1, 6]] := by decide
 example : (cart [[[0, 1]], [[5], [6]]]).flatMap cart = [[0, 5], [1, 5], [0, 6], [1, 6]] ∧
